@@ -2256,7 +2256,7 @@ fn do_render_node<T: Write, D: TextDecorator>(
         TableBody(_) => unimplemented!("Unexpected TableBody while rendering"),
         TableCell(cell) => render_table_cell(renderer, cell, pushed_style, err_out),
         FragStart(fragname) => {
-            renderer.record_frag_start(&fragname);
+            renderer.record_frag_start(&fragname)?;
             pushed_style.unwind(renderer);
             Finished(None)
         }
